@@ -153,12 +153,126 @@ def helper_field_reads(sel):
     return helpers, True
 
 
+# ---------------------------------------------------------------------------------------------------
+# behavioural determination of the same facts (used when a harmless re-spelling makes a shape unrecognisable)
+
+class _P:
+    """an object that records what is done to it"""
+    log = []
+
+    def __init__(self, path):
+        object.__setattr__(self, "_p", path)
+
+    def __getattr__(self, name):
+        _P.log.append(("get", self._p, name))
+        if name.startswith("__"):
+            raise AttributeError(name)
+        return _P(self._p + "." + name)
+
+    def __call__(self, *a, **k):
+        _P.log.append(("call", self._p))
+        return _P(self._p + "()")
+
+    def __iter__(self):
+        return iter([_P(self._p + "[0]")])
+
+    def __bool__(self):
+        return True
+
+
+class _PDesc:
+    name = "probe/rec"
+    fields = {}
+
+    def getfields(self, typename):
+        return []
+
+
+class _PRec:
+    def __init__(self):
+        object.__setattr__(self, "_desc", _PDesc())
+
+    def __getattr__(self, name):
+        _P.log.append(("get", "r", name))
+        if name.startswith("__"):
+            raise AttributeError(name)
+        return _P("r." + name)
+
+
+def _run(sel, expr):
+    del _P.log[:]
+    try:
+        sel.Selector(expr).match(_PRec())
+        out = "ok"
+    except sel.InvalidOperation:
+        out = "refused"
+    except Exception as e:  # noqa
+        out = type(e).__name__
+    return out, list(_P.log)
+
+
+def probe_behaviour(sel):
+    """(guard_by_identity, attribute_ok, helper names, helpers_refuse_dunder, fallthrough_ok) observed on probe objects."""
+    hostile = ["lower(r.s).upper()", "r.a.m(r.b)", "any(f() for f in [r.a.m])", "'abc'.upper()", "r.a.m()",
+               "any(string('A') for string in [r.a.startswith])", "str.lower('A')", "(r.a.m)(1)", "lower(r.a.m)()"]
+    res = {e: _run(sel, e) for e in hostile}
+    called = {e: [x for x in log if x[0] == "call"] for e, (out, log) in res.items()}
+    if all(out != "ok" and not called[e] for e, (out, log) in res.items()):
+        out, log = res["r.a.m(r.b)"]
+        if out != "refused" or ("get", "r", "b") in log:
+            raise Unsupported("behavioural probe: a refused call evaluates its arguments first (or raises %s)" % out)
+        by_identity = True
+    elif res["lower(r.s).upper()"][0] == "ok" or called["lower(r.s).upper()"]:
+        by_identity = False
+    else:
+        raise Unsupported("behavioural probe: hostile call shapes are neither all refused nor the known pre-fix pattern: %r" % {
+            e: (out, called[e]) for e, (out, log) in res.items()})
+    if _run(sel, "lower(r.a) == 1")[0] != "ok":
+        raise Unsupported("behavioural probe: a whitelisted helper call is refused")
+    a1, a2 = _run(sel, "r.a.__x__"), _run(sel, "r.__class__")
+    if not (a1 == ("refused", []) and a2 == ("refused", [])):
+        raise Unsupported("behavioural probe: a double-underscore attribute is not refused before anything is read: %r %r" % (a1, a2))
+    helpers, refuse = [], set()
+    for f in sel.FUNCTION_WHITELIST:
+        n = f.__name__
+        if not n.startswith("field_"):
+            continue
+        third = "'.'" if n == "field_regex" else "['v']"
+        out, log = _run(sel, "%s(r, ['a'], %s)" % (n, third))
+        if ("get", "r", "a") in log:
+            helpers.append(n)
+            out2, log2 = _run(sel, "%s(r, ['__x__'], %s)" % (n, third))
+            read = ("get", "r", "__x__") in log2
+            refuse.add(True if (out2 == "refused" and not read) else False if read else None)
+    if None in refuse or len(refuse) > 1:
+        raise Unsupported("behavioural probe: the field_* helpers treat double-underscore names inconsistently")
+    for e in ("(lambda: 1)", "{1: 2}", "r.a[0]", "r.a if r.b else 1"):
+        if _run(sel, e)[0] != "TypeError":
+            raise Unsupported("behavioural probe: the node kind of %r is not rejected with TypeError" % e)
+    return by_identity, helpers, (refuse.pop() if refuse else True)
+
+
 def gen_sandbox():
     import flow.record.selector as sel
     from flow.record import RecordDescriptor
     from flow.record.whitelist import WHITELIST
-    by_identity = call_guard_shape(sel)
-    attribute_branch_ok(sel)
+    # the facts are OBSERVED on probe objects; the shape recognisers below cross-check them where they recognise the code
+    # (an unrecognised spelling alone is not an alarm; a recognised shape that contradicts the observation is)
+    b_identity, b_helpers, b_refuse = probe_behaviour(sel)
+    notes = []
+    try:
+        by_identity = call_guard_shape(sel)
+        if by_identity != b_identity:
+            raise Unsupported("Call guard: recognised shape says %s, observed behaviour says %s" % (by_identity, b_identity))
+    except Unsupported as e:
+        if "observed behaviour" in str(e):
+            raise
+        notes.append("call guard shape not recognised (%s): observed behaviour used" % e)
+        by_identity = b_identity
+    try:
+        attribute_branch_ok(sel)
+    except Unsupported as e:
+        notes.append("attribute branch shape not recognised (%s): observed behaviour used" % e)
     # the namespace matches() builds
     D = RecordDescriptor("probe/sandbox", [("string", "s")])
     rec = D(s="x")
@@ -170,13 +284,18 @@ def gen_sandbox():
         v = m.data[k]
         if getattr(v, "__name__", k) != k and k != "fields":
             raise Unsupported("namespace entry %r is bound to a callable of another name" % k)
-    helpers, refuse = helper_field_reads(sel)
-    # final fallthrough of _eval
-    fn = ast.parse(textwrap.dedent(inspect.getsource(sel.RecordContextMatcher._eval))).body[0]
-    last = fn.body[-1]
-    if not (isinstance(last, ast.Raise) and "TypeError" in ast.unparse(last)):
-        raise Unsupported("_eval does not end with `raise TypeError(node)`")
+    try:
+        helpers, refuse = helper_field_reads(sel)
+        if (sorted(helpers), refuse) != (sorted(b_helpers), b_refuse):
+            raise Unsupported("field helpers: recognised shape says %r, observed behaviour says %r" % ((helpers, refuse), (b_helpers, b_refuse)))
+    except Unsupported as e:
+        if "observed behaviour" in str(e):
+            raise
+        notes.append("helper shape not recognised (%s): observed behaviour used" % e)
+        helpers, refuse = [f.__name__ for f in sel.FUNCTION_WHITELIST if f.__name__ in b_helpers], b_refuse
     out = HEADER
+    for n in notes:
+        out += "(* note: %s *)\n" % n.replace("(*", "( *").replace("*)", "* )")
     out += "From Coq Require Import List Bool String.\nImport ListNotations.\nFrom FR Require Import Sandbox.\nOpen Scope string_scope.\n\n"
     out += "Definition sandbox_facts : facts := {|\n"
     out += "  exposed_callables := %s;\n" % clist([cstr(x) for x in exposed])
